@@ -145,6 +145,10 @@ func (w *ErrWriter) Write(p []byte) (int, error) {
 	}
 
 	n, err := w.w.Write(p)
+	if err == nil && n < len(p) {
+		// the encoders that ignore errors ignore the count as well
+		err = io.ErrShortWrite
+	}
 	if err != nil {
 		w.err = err
 	}
